@@ -1,0 +1,57 @@
+//go:build verif
+
+package filters
+
+// Contracts for gocv (comment-only; see /verif/DESIGN.md).  No executable code.
+
+//@ spec func paeth(a int, b int, c int) int = let p = a + b - c in let pa = abs(p - a) in let pb = abs(p - b) in let pc = abs(p - c) in (pa <= pb && pa <= pc) ? a : (pb <= pc ? b : c)
+//@ spec func pngPred(t int, l int, u int, ul int) int = t == 0 ? 0 : (t == 1 ? l : (t == 2 ? u : (t == 3 ? div(l + u, 2) : paeth(l, u, ul))))
+
+//@ func paethPredictor results (r)
+//@   property C05
+//@   ensures r == paeth(a, b, c)
+
+//@ func decodePNGRow results (res, err)
+//@   property C05
+//@   ghost raw []byte
+//@   ghost prev []byte
+//@   requires len(raw) == len(rowData) && bytesPerPixel >= 1 && rowLength == len(rowData) && rowNum >= 0
+//@   requires rowNum > 0 ==> len(prevRows) >= rowNum * rowLength
+//@   requires len(prev) == len(rowData)
+//@   requires forall k int :: 0 <= k && k < len(rowData) ==> prev[k] == (rowNum > 0 ? prevRows[(rowNum-1)*rowLength + k] : 0)
+//@   requires forall k int :: 0 <= k && k < len(rowData) ==> 0 <= raw[k] && raw[k] <= 255 && 0 <= prev[k] && prev[k] <= 255
+//@   requires predictor <= 4 ==> forall k int :: 0 <= k && k < len(rowData) ==>
+//@            rowData[k] == byte(raw[k] - pngPred(predictor, (k >= bytesPerPixel ? raw[k-bytesPerPixel] : 0), prev[k], (k >= bytesPerPixel ? prev[k-bytesPerPixel] : 0)))
+//@   ensures inverse: predictor <= 4 ==> !err && len(res) == len(raw) && forall k int :: 0 <= k && k < len(raw) ==> res[k] == raw[k]
+//@   ensures unknown_filter: predictor > 4 && len(rowData) > 0 ==> err
+//@   loop 0:
+//@     invariant 0 <= i && i <= len(rowData) && len(result) == len(rowData) && (predictor > 4 ==> i == 0)
+//@     invariant forall k int :: 0 <= k && k < i ==> result[k] == raw[k]
+//@     decreases len(rowData) - i
+
+//@ func applyTIFFPredictor2 results (res, err)
+//@   property C05
+//@   ghost raw []byte
+//@   ghost cg []int
+//@   let cols = getIntParam(params, "Columns", 1)
+//@   let colors = getIntParam(params, "Colors", 1)
+//@   let bpc = getIntParam(params, "BitsPerComponent", 8)
+//@   let rs = cols * colors
+//@   requires len(raw) == len(data) && len(cg) == len(data)
+//@   requires forall k int :: 0 <= k && k < len(raw) ==> 0 <= raw[k] && raw[k] <= 255
+//@   requires len(data) > 0 ==> cg[0] == 0
+//@   requires forall k int :: {cg[k]} 1 <= k && k < len(data) ==> cg[k] == (cg[k-1] + 1 == rs ? 0 : cg[k-1] + 1)
+//@   requires forall k int :: 0 <= k && k < len(data) ==>
+//@            data[k] == byte(raw[k] - (cg[k] >= colors ? raw[k - colors] : 0))
+//@   ensures bpc_unsupported: bpc != 8 ==> err
+//@   ensures inverse: !err ==> len(res) == len(raw) && forall k int :: 0 <= k && k < len(raw) ==> res[k] == raw[k]
+//@   ensures accepts: bpc == 8 && cols >= 1 && colors >= 1 && mod(len(data), rs) == 0 ==> !err
+//@   loop 0:
+//@     invariant 0 <= row && row * rowSize >= 0 && rowSize == rs && rowSize >= 1 && colors >= 1 && len(result) == len(data) && row * rowSize <= len(data)
+//@     invariant row * rowSize < len(data) ==> cg[row * rowSize] == 0
+//@     invariant forall k int :: 0 <= k && k < row * rowSize ==> result[k] == raw[k]
+//@   loop 1:
+//@     invariant 0 <= col && col <= rowSize && rowStart >= 0 && rowStart == row * rowSize && len(result) == len(data) && rowStart + rowSize <= len(data)
+//@     invariant col < rowSize ==> cg[rowStart + col] == col
+//@     invariant col == rowSize && rowStart + col < len(data) ==> cg[rowStart + col] == 0
+//@     invariant forall k int :: 0 <= k && k < rowStart + col ==> result[k] == raw[k]
